@@ -17,7 +17,7 @@ def tasks(run):
     # stiff models (L = 30..100, unit radius): the multiplier of G >> 0 has genuine eigenvalues more than 1e3 apart - all of them belong to the certificate
     out += [('program', ('T_illcond', v, {})) for v in range(4)]
     # rows with large coefficients (radius 20 / 50): the exposed multiplier is that of the constraint AS DECLARED
-    out += [('program', ('T_scaled', v, {})) for v in range(2)]
+    out += [('program', ('T_scaled', v, {})) for v in range(4)]          # (2, 3: a constraint written in huge units, its exact multiplier is of order 1e-10)
     return out
 
 
